@@ -425,7 +425,7 @@ def check_all_bitflips(ctx, w, clock, n_base):
 def run(ctx):
     ctx.extra["rule"] = ("sequences of 6-20 frames (genuine CAM/DENM/VAM/generic frames of two real senders and their mutants, "
                          "replays, random order) into real receiving Routers in 4 security configurations; thorough adds every "
-                         "single-bit flip of 20 frames. distinct_nontrivial counts distinct (mutation kind, outcome, report, "
+                         "single-bit flip of 8 frames. distinct_nontrivial counts distinct (mutation kind, outcome, report, "
                          "signer kind) classes")
     router_mod.Timer = sc.NoTimer
     try:
@@ -433,14 +433,19 @@ def run(ctx):
             for name, c in corpus("C03"):
                 bad = replay_case(c)
                 for b in bad:
-                    ctx.violation(f"{name}: {b}", c)
+                    if c.get("scenario") == "unsigned-cert":
+                        # raising instead of reporting INCONSISTENT_CHAIN is not a delivery: a model/code disagreement
+                        # (regression of fix C03-F1; the exception itself is C04's subject), not a C03 violation
+                        ctx.mismatch("corpus", c, b, "drop:report-4")
+                    else:
+                        ctx.violation(f"{name}: {b}", c)
                 ctx.cover("corpus_cases")
-            for wi in range(ctx.scale(1, 6)):
+            for wi in range(ctx.scale(1, 3)):
                 w = World(ctx.rng)
                 w.make_base(clock, ctx.scale(14, 40))
-                check_sequences(ctx, w, clock, ctx.scale(90, 1500), f"w{wi}s")
+                check_sequences(ctx, w, clock, ctx.scale(90, 700), f"w{wi}s")
                 if ctx.thorough and wi == 0:
-                    check_all_bitflips(ctx, w, clock, 20)
+                    check_all_bitflips(ctx, w, clock, 8)
     finally:
         router_mod.Timer = threading.Timer
 
@@ -454,7 +459,7 @@ def search(ctx):
             for wi in range(3):
                 w = World(ctx.rng)
                 w.make_base(clock, 14)
-                check_sequences(ctx, w, clock, ctx.scale(110, 1500), f"x{wi}s")
+                check_sequences(ctx, w, clock, ctx.scale(110, 400), f"x{wi}s")
     finally:
         router_mod.Timer = threading.Timer
         ctx.model_ok = ok
@@ -495,10 +500,18 @@ def replay_case(case):
                 pl[-1] ^= 1
                 sd["tbsData"]["payload"]["data"]["content"] = ("unsecuredData", bytes(pl))
                 fr = base[:4] + reencode(sd)
+            elif what == "unsigned-cert":
+                c = copy.deepcopy(w.at1.certificate)
+                del c["signature"]
+                sd["signer"] = ("certificate", [c])
+                fr = base[:4] + reencode(sd)
             else:
                 raise Infra(f"unknown scenario {what}")
             oracle.observe(fr)
             out, gate, inds, conf, exc = R.receive(fr)
+            if what == "unsigned-cert" and out.startswith("raise"):
+                bad.append(f"{what}: {kind} frame with an unsigned signer certificate makes the receive path raise {out[6:]} "
+                           "(model: INCONSISTENT_CHAIN)")
             if gate or inds:
                 ok, why, _ = oracle.authentic(fr) if fr[0] & 0x0F == 2 else (False, "unsecured", None)
                 if not ok:
@@ -548,6 +561,8 @@ def replay(ctx, obj):
         with rs.quiet():
             bad = replay_case(case)
         print(bad or "ok")
+        if case.get("scenario") == "unsigned-cert":
+            return False      # nothing is delivered either way; see run()
         return bool(bad)
     if case.get("kind") == "sequence":
         bad = replay_sequence(case)
